@@ -868,12 +868,12 @@ def _ret_lambda(x):
     return lambda: x
 
 
-def _all_runs(body, workers):
+def _all_runs(body, workers, symmetry=True):
     """Every schedule of body(PoolClass) on `workers` controlled workers -> [(result, completion order)]."""
     out = []
 
     def once(ch):
-        ctl = Controller(ch, workers, task_timeout=30.0)
+        ctl = Controller(ch, workers, task_timeout=30.0, symmetry=symmetry)
         try:
             try:
                 r = ("ok", body(ctl.pool_class()))
@@ -993,6 +993,13 @@ def _selftest_job(job):
         nparts = len(set(repr(r) for r, _ in runs))
         if nparts != {1: 1, 2: 4, 3: 5}[w]:
             raise core.HarnessError("vpool selftest: %d distinct worker-state partitions on %d workers" % (nparts, w))
+        # the symmetry reduction loses no behaviour: same (result, completion order) set without it
+        full = _all_runs(_b_state, w, symmetry=False)
+        if set((repr(r), o) for r, o in full) != set((repr(r), o) for r, o in runs):
+            raise core.HarnessError("vpool selftest: symmetry reduction changes the set of behaviours on %d workers" % w)
+        if w > 1 and len(full) <= len(runs):
+            raise core.HarnessError("vpool selftest: symmetry reduction did not reduce (%d vs %d schedules)" % (len(full), len(runs)))
+        return len(runs) + len(full)
     elif name == "unload":
         runs = _all_runs(_b_unload, w)
         if set(r for r, _ in runs) != {("signal", "PoolHang")}:
